@@ -124,6 +124,8 @@ func runC07(r *engine.Run) {
 	r.Rule("WHO-readonly", "see C06: lookups never store into a pending map - a pending map is the write set that Commit publishes, so a memoised read would be committed as a write and overwrite what another transaction committed in between (writes are private until commit, and only writes are committed)")
 	r.Rule("DOM-commit", "StateCache.commit adds the block's entries to the per-key versions maps and publishes the block's link (commitRound stores it); it returns before doing so only where the lookup of the block's own link hit (already committed)")
 	r.Rule("KEY-same", "see C06: entries are stored under the key and block hash they belong to, tombstone arms store deleted=true, a transaction's commit forwards its own pairs")
+	r.Rule("FRESH-write", "see C06: in TransactionCache.Set, BlockCache.Set and BlockCache.setValue every entry stored into the pending map carries in its data field the result of a Clone() call (provenance dataflow over the local entry), never the previous entry's object refreshed in place")
+	r.Rule("DOM-commitall", "see C06: inside StateCache.commit's loop over the block's pending map, the next iteration is not reachable without adding the entry to the key's versions map: no write or tombstone of the block is skipped")
 	r.NotDec = append(r.NotDec, "after commit the committed values are what descendant lookups return (value-level; see C06)")
 	cloneBoundary(r, "C07")
 	cloneLinear(r)
@@ -133,6 +135,8 @@ func runC07(r *engine.Run) {
 	whoReadOnly(r, "WHO-readonly")
 	domCommitReached(r, "DOM-commit")
 	keySame(r)
+	freshWrite(r, "FRESH-write")
+	domCommitAll(r, "DOM-commitall")
 }
 
 // cloneBoundary checks every sink in package statecache.
